@@ -275,9 +275,15 @@ class C14(Prop):
                     op["n"] = rnd.choice([0, 1, 2, -1])
                 hist.append({"op": op})
             gens.append({"kind": "hist", "hist": hist, "recv": rnd.choice(["list", "tag"]), "salt": n})
+        # the object-history machine (spec/ObjOps.tla): child operations change exactly their own list
+        from .. import objhist
+        gens += objhist.gens(rnd, 150 if tier == "quick" else 3000, 14)
         return gens
 
     def execute(self, g):
         import htmltools as H
+        if g["kind"] == "objhist":
+            from .. import objhist
+            return objhist.execute(g, H)
         hist = run_hist(g["hist"], H, g["recv"], g.get("salt", 0))
         return {"hist": hist, "gen": g}
